@@ -159,7 +159,7 @@ theorem C06_transparent_partial (ds : Defs) (st : St) (ops : List Op) (r : Nat) 
 extends. For any class, any effective Meta, any per-field loaders and **any sequence of earlier documents** loaded by
 that class: every call returns exactly what the same call returns in a fresh process (the loop without a cache,
 `loadClassWith`). Invariant by induction over the history: every cached entry is what the slow path computes for its
-key, and a class that rejects unknown keys has cached none of them (repair 4bdd4a1). -/
+key; a class that rejects unknown keys rejects them whether it finds them cached or not. -/
 theorem C06_load_history_independent (FL : S → JVal → LRes) (eff : MetaCfg) (ci : ClassInfo)
     (docs : List (List (S × JVal))) :
     (KeyCache.runCalls false FL eff ci [] docs).1 = docs.map (fun d => loadClassWith FL eff ci (.dict d)) :=
@@ -175,13 +175,36 @@ def isOk : LRes → Bool
   | .ok _ => true
   | .error _ => false
 
-/-- the behaviour before repair 4bdd4a1 (unknown keys cached although the class rejects them): the second identical call
-with an unknown key succeeds although the first one was rejected; with the repair both are rejected -/
+/-- **the same class under several policies.** The functions generated for one class under different unknown-key policies
+— the class loaded on its own, nested under a main class whose `raise_on_unknown_json_key` cascades, nested under one
+without — share the class's key cache. For any history of such calls (each with the effective Meta of the function it goes
+through; they resolve keys alike, `KeyCache.SameKeys`), every call returns what it returns in a fresh process under its
+own policy: a key cached as "ignored" by a lenient call is still rejected by a strict one (repair after the finding
+`ignored-key-cache-defeats-cascaded-raise`), and a rejection leaves nothing behind that a lenient call could trip over. -/
+theorem C06_load_history_independent_across_policies (FL : S → JVal → LRes) (ci : ClassInfo) (eff0 : MetaCfg)
+    (calls : List (MetaCfg × List (S × JVal))) (hs : ∀ p ∈ calls, KeyCache.SameKeys ci eff0 p.1) :
+    (KeyCache.runCallsP FL ci [] calls).1 = calls.map (fun p => loadClassWith FL p.1 ci (.dict p.2)) :=
+  KeyCache.history_policies_eq FL ci eff0 calls [] (KeyCache.Inv_nil eff0 ci) hs
+
+/-- the hypothesis is met by policies that differ in `raise_on_unknown_json_key` only; and the concrete history "lenient,
+then strict, then lenient" on `K(a)` with the unknown key `zzz` gives accepted / rejected / accepted -/
+theorem C06_across_policies_witness :
+    let ci : ClassInfo := { name := "K".toList, fields := [{ name := "a".toList }] }
+    let lenient : MetaCfg := {}
+    let strict : MetaCfg := { raiseOnUnknown := some true }
+    let doc : List (S × JVal) := [("a".toList, .int 1), ("zzz".toList, .int 2)]
+    KeyCache.SameKeys ci lenient strict ∧
+    ((KeyCache.runCallsP (fun _ v => pure v.toPy) ci [] [(lenient, doc), (strict, doc), (lenient, doc)]).1.map isOk
+      = [true, false, true]) := by
+  exact ⟨KeyCache.sameKeys_raise _ _ _, by rfl⟩
+
+/-- caching an unknown key although the class rejects unknown keys (the behaviour before repair 4bdd4a1, `quirk`) no longer
+changes an outcome either: the strict function rejects a cached unknown key too -/
 theorem C06_negative_cache_witness :
     let ci : ClassInfo := { name := "K".toList, fields := [{ name := "a".toList }] }
     let eff : MetaCfg := { raiseOnUnknown := some true }
     let doc : List (S × JVal) := [("a".toList, .int 1), ("zzz".toList, .int 2)]
-    ((KeyCache.runCalls true (fun _ v => pure v.toPy) eff ci [] [doc, doc]).1.map isOk = [false, true]) ∧
+    ((KeyCache.runCalls true (fun _ v => pure v.toPy) eff ci [] [doc, doc]).1.map isOk = [false, false]) ∧
     ((KeyCache.runCalls false (fun _ v => pure v.toPy) eff ci [] [doc, doc]).1.map isOk = [false, false]) := by
   constructor <;> rfl
 
